@@ -20,7 +20,9 @@ RULE = (
     "the end (null reply), read_through(limit 6|64), views}; controller log pre-filled with 0..70 entries (so depths "
     "0, 1..5, 6..63 and the full 64 occur), the view optionally pre-synchronised by a read-through. Frames (I/RP 0418, "
     "null entry) are assembled by the oracle. Non-trivial = >= 1 lost announcement followed by a mid-log reply or a "
-    "read-through; distinct by (initial depth, ops)."
+    "read-through; distinct by (initial depth, ops). A sample (320 / 10k histories of announcements and read-throughs, with "
+    "lost / duplicated / delayed RQ|0418 exchanges) runs through the real Gateway, send stack and dispatcher against a "
+    "scripted controller on the in-memory ether (level 'stack')."
 )
 
 CTL = "01:145038"
@@ -256,6 +258,164 @@ def explore(job: dict) -> dict:
     return col.dump()
 
 
+# ---- L2: the same view through the real Gateway, send stack and dispatcher against a scripted controller -----------------
+async def _stack_history(loop: Any, hist: dict) -> dict:
+    from vf.env import stack, vclock
+
+    eth = stack.Ether(loop)
+    gwy, port = await stack.make_gateway(eth, gwy_id=GWY, config={"disable_discovery": True}, schema={CTL: {}, "main_tcs": CTL})
+    tcs = gwy.tcs
+    model: list[dict] = []
+    clock = [T0]
+    n_rq = [0]
+    lost_for_good = [False]
+
+    def new_entry(state: str, k: int) -> dict:
+        clock[0] += timedelta(seconds=1 + (k * 37) % 5000)
+        return {"t": clock[0], "state": state, "type": TYPES[k % len(TYPES)], "domain": f"{k % 12:02X}", "cls": CLASSES[k % len(CLASSES)],
+                "dev": f"{0x100000 + (k * 7919) % 0x3FFFF:06X}"}
+
+    def on_frame(frame: str, origin: Any) -> None:  # the controller: answers RQ|0418 from the model
+        if origin is None or frame[:2] != "RQ" or frame[17:26] != CTL or frame[37:41] != "0418":
+            return
+        n_rq[0] += 1
+        fate = hist["fates"].get(str(n_rq[0]), "ok")
+        if fate == "lose-req":
+            return
+        idx = int(frame[46:][4:6], 16)
+        pl = entry_payload(model[idx], idx) if idx < len(model) else NULL
+        if idx < len(model):
+            reported[ts_str(model[idx])] = model[idx]
+        rp = f"RP --- {CTL} {frame[7:16]} --:------ 0418 022 {pl}"
+        if fate != "lose-rp":
+            loop.call_later(0.03 + (0.4 if fate == "delay" else 0.0), eth.inject, rp)
+            if fate == "dup":
+                loop.call_later(0.05, eth.inject, rp)
+
+    eth.listeners.append(on_frame)
+    reported: dict[str, dict] = {}
+    out: list[dict] = []
+    try:
+        for k in range(hist["initial"]):
+            model.insert(0, new_entry("fault" if k % 3 else "restore", k))
+            del model[64:]
+        k0 = hist["initial"]
+        for n, op in enumerate(hist["ops"]):
+            rec: dict[str, Any] = {"op": op}
+            if op[0] == "new":
+                e = new_entry(op[1], k0 + n)
+                model.insert(0, e)
+                del model[64:]
+                if op[2]:
+                    reported[ts_str(e)] = e
+                    eth.inject(f" I --- {CTL} --:------ {CTL} 0418 022 {entry_payload(e, 0)}")
+                    await vclock.quiesce()
+            elif op[0] == "read":
+                rq0 = n_rq[0]
+                t0 = loop.time()
+                try:
+                    res = await asyncio.wait_for(tcs.get_faultlog(start=0, limit=op[1]), timeout=3000)
+                    rec["returned"] = None if res is None else "dict"
+                except Exception as x:  # noqa: BLE001
+                    rec["raised"] = f"{type(x).__name__}: {x}"[:160]
+                rec["took"] = loop.time() - t0
+                rec["clean"] = all(hist["fates"].get(str(i), "ok") in ("ok", "dup", "delay") for i in range(rq0 + 1, n_rq[0] + 1))
+                rec["limit"] = op[1]
+            await vclock.quiesce()
+            try:
+                v = tcs._faultlog.faultlog
+                _ = tcs.active_faults, tcs.latest_event, tcs.latest_fault
+                rec["view"] = {int(i): e.timestamp for i, e in v.items()}
+            except Exception as x:  # noqa: BLE001
+                rec["view_raises"] = f"{type(x).__name__}: {x}"[:160]
+            rec["model"] = [ts_str(e) for e in model]
+            rec["reported"] = sorted(reported)
+            out.append(rec)
+            await asyncio.sleep(0.5)
+    finally:
+        await stack.stop_gateway(gwy)
+        eth.close()
+    return {"steps": out}
+
+
+def judge_stack(hist: dict, obs: dict) -> list[tuple[dict, str]]:
+    out: list[tuple[dict, str]] = []
+    seen: set[str] = set()
+
+    def viol(clause: str, detail: str, **kw: Any) -> None:
+        if clause not in seen:
+            seen.add(clause)
+            out.append(({"clause": clause, "level": "stack", **kw}, detail))
+
+    for n, r in enumerate(obs["steps"]):
+        if "view_raises" in r:
+            viol("view-raises", f"step {n} {r['op']}: {r['view_raises']}")
+            continue
+        v = r["view"]
+        tss = [v[i] for i in sorted(v)]
+        if len(set(tss)) != len(tss):
+            viol("entry-at-two-positions", f"step {n} {r['op']}: {v}")
+        elif any(a <= b for a, b in zip(tss, tss[1:])):
+            viol("not-newest-first", f"step {n} {r['op']}: {v}")
+        if any(t not in r["reported"] for t in tss):
+            viol("entry-never-reported", f"step {n} {r['op']}: {v}")
+        if r["op"][0] == "read":
+            if "raised" in r:
+                viol("read-through-raises", f"step {n}: {r['raised']}", exc=r["raised"].split(":")[0])
+            elif r["clean"] and r.get("returned") == "dict":
+                rng = range(0, min(r["limit"], 64))
+                exp = {i: r["model"][i] for i in rng if i < len(r["model"])}
+                got = {i: t for i, t in v.items() if i in rng}
+                if got != exp:
+                    viol("read-through-differs", f"step {n} read_through(limit={r['limit']}), depth {len(r['model'])}: view {dict(list(got.items())[:8])} expected {dict(list(exp.items())[:8])}")
+            elif r["clean"] and r.get("returned") is None:
+                viol("read-through-fails-without-loss", f"step {n}: get_faultlog returned None although no exchange was lost")
+            if r["took"] > 64 * 21:
+                viol("read-through-late", f"step {n}: took {r['took']:.0f} s")
+    return out
+
+
+def explore_stack(job: dict) -> dict:
+    from hypothesis import strategies as st
+
+    from vf.env import vclock
+    from vf.env.quiet import quiet_logs
+
+    quiet_logs()
+    col = Collector()
+
+    @st.composite
+    def history(draw: Any) -> dict:
+        initial = draw(st.sampled_from((0, 1, 2, 5, 6, 7, 12, 63, 64)))
+        op = st.one_of(st.tuples(st.just("new"), st.sampled_from(("fault", "restore")), st.booleans()),
+                       st.tuples(st.just("read"), st.sampled_from((6, 6, 64))))
+        ops = draw(st.lists(op, min_size=1, max_size=8))
+        fates = {}
+        if draw(st.booleans()):
+            for i in range(1, 60):
+                if draw(st.integers(0, 9)) == 0:
+                    fates[str(i)] = draw(st.sampled_from(("lose-req", "lose-rp", "dup", "delay")))
+        if draw(st.integers(0, 3)) == 0:  # a run of losses that outlasts the retries
+            a = draw(st.integers(1, 10))
+            for i in range(a, a + 5):
+                fates[str(i)] = "lose-rp"
+        return {"initial": initial, "ops": [list(o) for o in ops], "fates": fates, "level": "stack"}
+
+    def body(hist: dict) -> None:
+        obs, lp = vclock.run(_stack_history, hist)
+        col.case(nt=jdump(hist) if any(o[0] == "read" for o in hist["ops"]) else None,
+                 classes=["stack", "stack:faults" if hist["fates"] else "stack:no-faults", f"stack:depth:{'0' if not hist['initial'] else '1-6' if hist['initial'] <= 6 else '7+'}",
+                          "stack:has-read" if any(o[0] == "read" for o in hist["ops"]) else "stack:no-read"],
+                 sample={"initial": hist["initial"], "ops": hist["ops"], "fates": hist["fates"]})
+        if lp.exc_contexts:
+            col.note("stack: loop exception (recorded): " + f"{lp.exc_contexts[0].get('exception')!r}"[:100], len(lp.exc_contexts))
+        for sig, d in judge_stack(hist, obs):
+            col.violation(sig, hist, d)
+
+    hyp_explore(history(), body, job["n"], job["seed"])
+    return col.dump()
+
+
 def run(ctx: Ctx, col: Collector) -> None:
     ctx.rule = RULE
     ctx.assumptions = [
@@ -265,11 +425,17 @@ def run(ctx: Ctx, col: Collector) -> None:
     ]
     ctx.parallel(explore, ctx.shards(ctx.n(5_000, 250_000)), col)
     ctx.parallel(explore, ctx.shards(ctx.n(3_000, 100_000), ops=("new", "read", "views")), col)
-    ctx.floors = [("lost-announcement", "hist", 0.3), ("has-read-through", "hist", 0.3), ("depth:64+", "hist", 0.05)]
+    ctx.parallel(explore_stack, ctx.shards(ctx.n(320, 10_000), per_shard_min=5), col)
+    ctx.floors = [("lost-announcement", "hist", 0.3), ("has-read-through", "hist", 0.3), ("depth:64+", "hist", 0.05), ("stack:has-read", "stack", 0.5)]
 
 
 def replay(case: dict) -> list[tuple[dict, str]]:
     from vf.env.quiet import quiet_logs
 
     quiet_logs()
+    if case.get("level") == "stack":
+        from vf.env import vclock
+
+        obs, _ = vclock.run(_stack_history, case)
+        return judge_stack(case, obs)
     return run_history(case)
